@@ -111,33 +111,68 @@ def events_of(behs, recs, only=None):
     return ev
 
 
-def judge(ck, module, behs, recs, events, what, sigf, max_report=12):
-    """TLC decides whether the recorded events are behaviours of the spec.
-    A rejected execution is cut out and validation continues with the rest,
-    so every failing execution is found (bounded)."""
+def vacuity(ck, res, names):
+    """-coverage 1 output: every named action must have been taken."""
+    import re
+    cnt = {}
+    for ln in res.out.splitlines():
+        m = re.match(r"<(\w+) line \d+, col \d+ .*>: (\d+):(\d+)", ln)
+        if m:
+            cnt[m.group(1)] = max(cnt.get(m.group(1), 0), int(m.group(3)))
+    ck.notes["action_coverage"] = {n: cnt.get(n, 0) for n in names}
+    dead = [n for n in names if not cnt.get(n)]
+    if dead:
+        raise vlib.MachineryError("vacuous model: action(s) never taken: %s" % dead)
+
+
+def tlc_trace(module, events, tag):
+    """One TLC run over all events: returns (indices of rejected events, TlcResult).
+    The Trace_ specifications record an event they cannot take, skip the rest
+    of that execution and go on, so every failing execution is found at once."""
+    import re
+    tdir = vlib.ensure(os.path.join(vlib.WORK, "traces"))
+    path = os.path.join(tdir, "%s-%d.ndjson" % (tag, os.getpid()))
+    with open(path, "w") as f:
+        for e in events:
+            f.write(json.dumps(e, separators=(",", ":")) + "\n")
+    res = vlib.tlc(module, module + ".cfg", workers=1, env={"TRACE": path}, xss="512m", tag=tag, timeout=1500)
+    if res.error:
+        raise vlib.MachineryError(res.error)
+    m = re.findall(r'<<"MATCHED", (\d+), "REJECTED", (\d+)>>', res.out)
+    rej = [int(x) - 1 for x in re.findall(r'<<"REJECT", (\d+)>>', res.out)]
+    if not m or int(m[-1][0]) != len(events) or res.violation or res.rc != 0:
+        raise vlib.MachineryError("trace validation did not read the whole trace (%s):\n%s" % (tag, res.out[-3000:]))
+    if int(m[-1][1]) != len(rej):
+        raise vlib.MachineryError("trace validation: rejection count mismatch")
+    if not rej:
+        os.unlink(path)
+    return rej, res
+
+
+def judge(ck, module, behs, recs, events, what, sigf, max_report=200):
+    """TLC decides whether the recorded events are behaviours of the spec."""
+    if not events:
+        return [], 0
+    tag = "%s_%s" % (module, "".join(ch for ch in what if ch.isalnum()))
+    rej, res = tlc_trace(module, events, tag)
+    ck.cov["transitions"] += res.generated
+    if rej:
+        rej2, _ = tlc_trace(module, events, tag)        # re-run once before reporting
+        if rej2 != rej:
+            raise vlib.MachineryError("trace validation not reproducible")
     bad = []
-    total = len(events)
-    rounds = 0
-    while events and rounds < max_report:
-        rounds += 1
-        ok, matched, res = vlib.validate_trace(module, events, tag="%s_%s" % (module, what))
-        ck.cov["transitions"] += res.generated
-        if ok:
-            break
-        ok2, matched2, _ = vlib.validate_trace(module, events, tag="%s_%s" % (module, what))
-        if ok2:
-            break
-        if matched2 != matched:
-            raise vlib.MachineryError("trace validation not reproducible (%d vs %d)" % (matched, matched2))
-        ev = events[matched]
+    byb = {}
+    for r in recs:
+        byb.setdefault(r.get("b"), []).append(r)
+    for idx in rej[:max_report]:
+        ev = events[idx]
         b = ev["b"]
         bad.append((b, ev))
-        rs = [r for r in recs if r.get("b") == b]
         ck.violation(sigf(behs[b], ev["i"], ev["a"] if ev["a"] in ("Crash", "Hang") else "rejected",
                           {"obs": ev.get("obs")}),
-                     {"binding": what, "rejected_event": ev, "behaviour": behs[b], "records": rs[:40]})
-        events = [e for e in events if e["b"] != b]
-    return bad, total
+                     {"binding": what, "rejected_event": ev, "behaviour": behs[b], "records": byb.get(b, [])[:40]})
+    bad += [(events[i]["b"], events[i]) for i in rej[max_report:]]
+    return bad, len(events)
 
 
 # --------------------------------------------------------------------------
@@ -270,6 +305,8 @@ def run(tier):
     # 1. the design implements the framing for all schedules in the bound
     res = vlib.tlc("MC_CobsEnc", cfg["mc"], coverage=(tier == "thorough"))
     ck.add_tlc(res, "exhaustive " + cfg["mc"])
+    if tier == "thorough":
+        vacuity(ck, res, ["Push", "Grow", "Term"])
 
     # 2. binding A: every transition of the model replayed into the scaled real encoders
     gen = vlib.tlc("Gen_CobsEnc", cfg["gen"], workers=6)
